@@ -14,6 +14,8 @@ ASSUMPTIONS = [
     "several entries for one price inside one update: any application order among equal prices is allowed "
     "(OrderBook::new sorts with an unstable sort) - DESIGN 5.4",
     "time_engine is not part of the property and is not compared",
+    "manager mode: the manager runs on its own thread; at random events a consumer of the shared map holds a read lock on the "
+    "book for ~4 ms while the event arrives (waiting for the manager is bounded by 60 s wall clock = tool error, never a verdict)",
     "prices / amounts are small integers times a per-scenario power of ten (1e-8 .. 1e3); volume weighted mid "
     "compared exactly where the fraction is a finite decimal, else to 1e-18 relative",
 ]
@@ -110,7 +112,9 @@ def check_results(ctx, results_path, scns, mode, label):
 
 def run_scenarios(ctx, scn_path, scns, mode, label):
     res, tr = ctx.path("results_%s_%s.ndjson" % (label, mode)), ctx.path("trace_%s_%s.ndjson" % (label, mode))
-    ctx.harness("c05", "run", "--scenarios", scn_path, "--results", res, "--trace", tr, "--mode", mode, "--seed", ctx.seed)
+    # (a replay holds a reader on the book at every event of the manager mode, so that a lost event reproduces)
+    extra = ["--reader-every", 1] if label == "replay" else []
+    ctx.harness("c05", "run", "--scenarios", scn_path, "--results", res, "--trace", tr, "--mode", mode, "--seed", ctx.seed, *extra)
     check_results(ctx, res, scns, mode, label + "/" + mode)
     validate(ctx, tr, mode, label + "/" + mode)
     ctx.cov["scenarios_replayed"] += len(scns)
